@@ -40,6 +40,23 @@ def gen_inputs(ctx):
             out.append(("Bip85", {"master": m, "app": "pwd", "p": ln, "ix": ix(i)}, ("pwd", ln)))
         if q:
             break
+    # indexes at which the private key AT THE BIP85 PATH starts with a zero byte (about 1 in 256; searched with
+    # the harness's own BIP32 walk) - the HMAC must still run over all 32 bytes
+    from .. import refwallet as W
+    found = 0
+    for mm in masters[:2]:
+        tab = R.Table()
+        rm = W.RNode(bytes(mm["k"]), R.pubkey(int.from_bytes(bytes(mm["k"]), "big")), bytes(mm["c"]), 0, 0, bytes(4), "main")
+        for app, p in (("wif", 0), ("hex", 32)):
+            parent = W.derive(tab, rm, W.bip85_path(app, p, 0)[:-1])
+            for i in range(0, 700 if q else 3000):
+                I = R.hmac512(parent.c, b"\x00" + parent.k + (i + 2 ** 31).to_bytes(4, "big"))
+                kk = (int.from_bytes(I[:32], "big") + int.from_bytes(parent.k, "big")) % N
+                if kk >> 248 == 0 and int.from_bytes(I[:32], "big") < N and kk:
+                    out.append(("Bip85", {"master": mm, "app": app, "p": p, "ix": ix(i)}, ("leading-zero-path-key", app)))
+                    found += 1
+                    break
+    ctx.notes["bip85_path_keys_with_leading_zero_found"] = found
     m = masters[-1]
     # out-of-range parameters on both sides of every bound
     for wc in list(range(0, 31)):
